@@ -3,7 +3,7 @@ import json
 import re
 
 from mirlib import AnchorMissing, path_matches, op_place, const_str
-from helpers import (arm, aggregates, branches_on_field, calls_matching, edge_region, enum_switches, field_accesses, loop_of, must_pass,
+from helpers import (try_edges, arm, aggregates, branches_on_field, calls_matching, edge_region, enum_switches, field_accesses, loop_of, must_pass,
                      origin_calls, vexpr)
 from props import c07
 
@@ -134,6 +134,13 @@ def r_json_shape(r, prog):
     seq = ss + sf + en
     nl = [c for c in f.calls() if c.name() == 'write_fmt']
     ok = len(en) == 1 and len(nl) == 1 and all(f.dominates(a.bb, b.bb) for a, b in zip(seq, seq[1:])) and f.dominates(en[0].bb, nl[0].bb)
+    if ok:
+        # ... on every path that goes on to the next diagnostic (or to the end): the newline is not conditional
+        lp = loop_of(f, en[0].bb)
+        oks = [okb for b_, okb, errb in try_edges(f, en[0]) if okb != errb]
+        rets = [i for i, b in enumerate(f.blocks) if b['t']['k'] == 'return']
+        if lp is None or not oks or not all(must_pass(f, o, [lp[0]], [nl[0].bb], within=lp[1]) for o in oks):
+            ok = False
     if ok:
         r.ok('end() after the last field, then exactly one newline')
     else:
